@@ -354,4 +354,213 @@ theorem alloc_none_iff {lo hi : Nat} {fl : FL} (h : FLInv lo hi fl) {n : Nat} :
       have := hall r hr hrf
       omega
 
+/-! ## `freeRun` -/
+
+/-- The map after merging `[ns, ns + nsz)` into one free run (what `freeRun` builds). -/
+def FL.merged (fl : FL) (ns nsz : Nat) : FL :=
+  { runs := (fl.runs.filter (fun r => !(decide (ns ≤ r.start) && decide (r.start < ns + nsz)))) ++ [⟨ns, nsz, true⟩],
+    order := ns :: fl.order.filter (fun x => !(decide (ns ≤ x) && decide (x < ns + nsz))) }
+
+def pickL (L : Option Run) (d : Run) : Run :=
+  match L with
+  | some l => if l.free then l else d
+  | none => d
+
+def pickR (F : Option Run) : Nat :=
+  match F with
+  | some r => if r.free then r.size else 0
+  | none => 0
+
+theorem freeRun_unfold (fl : FL) (u : Nat) :
+    fl.freeRun u = (fl.sizeOf u,
+      fl.merged (pickL (fl.leftOf u) ⟨u, fl.sizeOf u, false⟩).start
+        (u + fl.sizeOf u + pickR (fl.find (u + fl.sizeOf u)) - (pickL (fl.leftOf u) ⟨u, fl.sizeOf u, false⟩).start)) := by
+  rfl
+
+/-- `freeRun u` for an allocated run `⟨u, s⟩`: it merges the run with its free left neighbour (if any) and
+its free right neighbour (if any). -/
+theorem freeRun_eq {lo hi : Nat} {fl : FL} (h : FLInv lo hi fl) {u s : Nat}
+    (hr : (⟨u, s, false⟩ : Run) ∈ fl.runs) :
+    ∃ ns es, (ns = u ∨ ∃ l ∈ fl.runs, l.free = true ∧ l.start = ns ∧ l.start + l.size = u) ∧
+      (es = 0 ∨ ∃ r ∈ fl.runs, r.free = true ∧ r.start = u + s ∧ r.size = es) ∧
+      fl.freeRun u = (s, fl.merged ns (u + s + es - ns)) := by
+  have hsz : fl.sizeOf u = s := h.sizeOf_eq hr
+  rw [freeRun_unfold, hsz]
+  refine ⟨_, _, ?_, ?_, rfl⟩
+  · cases hl : fl.leftOf u with
+    | none => exact Or.inl rfl
+    | some l =>
+      by_cases hlf : l.free = true
+      · refine Or.inr ⟨l, (FLInv.leftOf_some hl).1, hlf, ?_, (FLInv.leftOf_some hl).2⟩
+        simp [pickL, hlf]
+      · refine Or.inl ?_
+        simp [pickL, hlf]
+  · cases hf : fl.find (u + s) with
+    | none => exact Or.inl rfl
+    | some r =>
+      by_cases hrf : r.free = true
+      · refine Or.inr ⟨r, (h.find_some hf).1, hrf, (h.find_some hf).2, ?_⟩
+        simp [pickR, hrf]
+      · refine Or.inl ?_
+        simp [pickR, hrf]
+
+/-- Every run of the map is the freed run, one of the two free neighbours merged with it, or lies
+outside the merged interval. -/
+theorem merged_cases {lo hi : Nat} {fl : FL} (h : FLInv lo hi fl) {u s : Nat}
+    (hr : (⟨u, s, false⟩ : Run) ∈ fl.runs) {ns es : Nat}
+    (hL : ns = u ∨ ∃ l ∈ fl.runs, l.free = true ∧ l.start = ns ∧ l.start + l.size = u)
+    (hR : es = 0 ∨ ∃ r ∈ fl.runs, r.free = true ∧ r.start = u + s ∧ r.size = es) :
+    ns ≤ u ∧ ∀ x ∈ fl.runs, x.start = u ∨ (x.free = true ∧ ns ≤ x.start ∧ x.start < u + s + es) ∨
+      (x.start + x.size ≤ ns ∨ u + s + es ≤ x.start) := by
+  have hs := h.pos _ hr
+  dsimp only at hs
+  have hns : ns ≤ u := by
+    rcases hL with rfl | ⟨l, _, _, rfl, hle⟩
+    · exact Nat.le_refl _
+    · omega
+  refine ⟨hns, ?_⟩
+  intro x hx
+  have hxp := h.pos x hx
+  rcases h.eq_or_disj hx hr with e | d1
+  · exact Or.inl (by rw [e])
+  unfold Disj at d1; dsimp only at d1
+  have hl' : ns = u ∨ (x.free = true ∧ ns ≤ x.start ∧ x.start < u + s + es) ∨
+      (x.start + x.size ≤ ns ∨ u ≤ x.start) := by
+    rcases hL with e | ⟨l, hl, hlf, hls, hle⟩
+    · exact Or.inl e
+    · rcases h.eq_or_disj hx hl with e | d
+      · refine Or.inr (Or.inl ⟨e ▸ hlf, ?_, ?_⟩)
+        · rw [e, hls]; exact Nat.le_refl _
+        · rw [e]; have := h.pos l hl; omega
+      · unfold Disj at d; exact Or.inr (Or.inr (by omega))
+  have hr' : es = 0 ∨ (x.free = true ∧ ns ≤ x.start ∧ x.start < u + s + es) ∨
+      (x.start + x.size ≤ u + s ∨ u + s + es ≤ x.start) := by
+    rcases hR with e | ⟨r, hrr, hrf, hrs, hre⟩
+    · exact Or.inl e
+    · rcases h.eq_or_disj hx hrr with e | d
+      · refine Or.inr (Or.inl ⟨e ▸ hrf, ?_, ?_⟩)
+        · rw [e, hrs]; omega
+        · rw [e, hrs]; have := h.pos r hrr; omega
+      · unfold Disj at d; exact Or.inr (Or.inr (by omega))
+  rcases hl' with e1 | m | d2
+  · rcases hr' with e2 | m | d3
+    · exact Or.inr (Or.inr (by omega))
+    · exact Or.inr (Or.inl m)
+    · exact Or.inr (Or.inr (by omega))
+  · exact Or.inr (Or.inl m)
+  · rcases hr' with e2 | m | d3
+    · exact Or.inr (Or.inr (by omega))
+    · exact Or.inr (Or.inl m)
+    · exact Or.inr (Or.inr (by omega))
+
+/-- Freeing an allocated run `⟨u, s⟩` that lies inside `[lo, hi)` keeps the map well formed, returns
+`s`, removes `⟨u, s⟩` from the allocated runs and leaves every other allocated run alone. -/
+theorem freeRun_spec {lo hi : Nat} {fl : FL} (h : FLInv lo hi fl) {u s : Nat}
+    (hr : (⟨u, s, false⟩ : Run) ∈ fl.runs) (hlo : lo ≤ u) (hhi : u + s ≤ hi) :
+    (fl.freeRun u).1 = s ∧ FLInv lo hi (fl.freeRun u).2 ∧
+    (∀ x : Run, x.free = false → (x ∈ (fl.freeRun u).2.runs ↔ x ∈ fl.runs ∧ x.start ≠ u)) := by
+  obtain ⟨ns, es, hL, hR, heq⟩ := freeRun_eq h hr
+  obtain ⟨hns, hc⟩ := merged_cases h hr hL hR
+  have hs := h.pos _ hr
+  dsimp only at hs
+  rw [heq]
+  refine ⟨rfl, ?_, ?_⟩
+  rotate_left
+  · intro x hxf
+    show x ∈ (fl.merged ns (u + s + es - ns)).runs ↔ _
+    unfold FL.merged
+    simp only [List.mem_append, List.mem_filter, List.mem_cons, List.not_mem_nil, or_false,
+      Bool.not_eq_true', Bool.and_eq_false_iff, decide_eq_false_iff_not]
+    constructor
+    · rintro (⟨hx, hout⟩ | rfl)
+      · refine ⟨hx, ?_⟩
+        intro hxu; omega
+      · cases hxf
+    · rintro ⟨hx, hne⟩
+      refine Or.inl ⟨hx, ?_⟩
+      rcases hc x hx with e | ⟨f, _⟩ | d
+      · exact absurd e hne
+      · rw [hxf] at f; cases f
+      · have := h.pos x hx; omega
+  · -- well-formedness of the merged map
+    have hne : ns + (u + s + es - ns) = u + s + es := by omega
+    have hmem : ∀ x, x ∈ (fl.merged ns (u + s + es - ns)).runs ↔
+        (x ∈ fl.runs ∧ (x.start + x.size ≤ ns ∨ u + s + es ≤ x.start)) ∨ x = ⟨ns, u + s + es - ns, true⟩ := by
+      intro x
+      unfold FL.merged
+      simp only [List.mem_append, List.mem_filter, List.mem_cons, List.not_mem_nil, or_false,
+        Bool.not_eq_true', Bool.and_eq_false_iff, decide_eq_false_iff_not, hne]
+      constructor
+      · rintro (⟨hx, hout⟩ | rfl)
+        · refine Or.inl ⟨hx, ?_⟩
+          rcases hc x hx with e | ⟨_, f1, f2⟩ | d
+          · omega
+          · omega
+          · exact d
+        · exact Or.inr rfl
+      · rintro (⟨hx, d⟩ | rfl)
+        · have := h.pos x hx
+          exact Or.inl ⟨hx, by omega⟩
+        · exact Or.inr rfl
+    have hin : lo ≤ ns ∧ u + s + es ≤ hi := by
+      constructor
+      · rcases hL with rfl | ⟨l, hl, hlf, rfl, _⟩
+        · exact hlo
+        · exact (h.free_in l hl hlf).1
+      · rcases hR with rfl | ⟨r, hrr, hrf, hrs, rfl⟩
+        · exact hhi
+        · have := (h.free_in r hrr hrf).2; omega
+    refine ⟨?_, ?_, ?_, ?_, ?_⟩
+    · intro x hx
+      rcases (hmem x).1 hx with ⟨hx, _⟩ | rfl
+      · exact h.pos x hx
+      · dsimp only; omega
+    · show (fl.merged ns (u + s + es - ns)).runs.Pairwise Disj
+      unfold FL.merged
+      dsimp only
+      rw [List.pairwise_append]
+      refine ⟨h.disj.filter _, List.pairwise_singleton .., ?_⟩
+      intro a ha b hb
+      have hb' : b = ⟨ns, u + s + es - ns, true⟩ := by simpa using hb
+      have ha' : a ∈ (fl.merged ns (u + s + es - ns)).runs := by
+        unfold FL.merged; exact List.mem_append_left _ ha
+      rcases (hmem a).1 ha' with ⟨_, d⟩ | e
+      · rw [hb']; unfold Disj; dsimp only; omega
+      · -- `a` is in the filtered part, so its start is outside the merged interval
+        rw [List.mem_filter] at ha
+        have := ha.2
+        rw [e] at this
+        simp at this
+        omega
+    · show (ns :: fl.order.filter _).Nodup
+      rw [List.nodup_cons]
+      refine ⟨?_, h.nodup.filter _⟩
+      rw [List.mem_filter]
+      rintro ⟨_, hx⟩
+      simp at hx
+      omega
+    · intro v
+      show v ∈ (ns :: fl.order.filter _) ↔ _
+      rw [List.mem_cons, List.mem_filter]
+      simp only [Bool.not_eq_true', Bool.and_eq_false_iff, decide_eq_false_iff_not, hne]
+      constructor
+      · rintro (rfl | ⟨hv, hout⟩)
+        · exact ⟨_, (hmem _).2 (Or.inr rfl), rfl, rfl⟩
+        · obtain ⟨x, hx, hxv, hxf⟩ := (h.order_iff v).1 hv
+          refine ⟨x, (hmem x).2 (Or.inl ⟨hx, ?_⟩), hxv, hxf⟩
+          rcases hc x hx with e | ⟨_, f1, f2⟩ | d
+          · omega
+          · omega
+          · exact d
+      · rintro ⟨x, hx, hxv, hxf⟩
+        rcases (hmem x).1 hx with ⟨hx, d⟩ | rfl
+        · refine Or.inr ⟨(h.order_iff v).2 ⟨x, hx, hxv, hxf⟩, ?_⟩
+          have := h.pos x hx
+          omega
+        · exact Or.inl hxv.symm
+    · intro x hx hxf
+      rcases (hmem x).1 hx with ⟨hx, _⟩ | rfl
+      · exact h.free_in x hx hxf
+      · dsimp only; omega
+
 end Mmtk.Map32
